@@ -452,7 +452,7 @@ def star(w):
         sra = BV(16, v.bits[SR.STAR_SYSRET[0]:SR.STAR_SYSRET[1]]).get_aff()
         sca = BV(16, v.bits[SR.STAR_SYSCALL[0]:SR.STAR_SYSCALL[1]]).get_aff()
         want = [sra.add(Aff({}, 16)), sra.add(Aff({}, 8)), sca, sca.add(Aff({}, 8))]
-        got = [inner(x).get_aff() for x in rets[0].val.fields]
+        got = [I.aff_of(rets[0].st, inner(x)) for x in rets[0].val.fields]
         ok = all(g is not None and g.norm(16) == wv.norm(16) for g, wv in zip(got, want))
         w.ob('Star::read: selectors (SYSRET base+16, base+8, SYSCALL base, base+8)', ok, 'returned %r' % (rets[0].val,), S + 'read', sample=[repr(g) for g in got])
     else:
@@ -508,7 +508,7 @@ def star(w):
             a0, a1 = calls[0][2]
             ss = BV(16, [1, 1] + sl('ss_sysret', 2, 16))     # RPL = 3 on this path
             want0 = ss.get_aff().add(Aff({}, -8))
-            g0 = a0.get_aff()
+            g0 = I.aff_of(oks[0].st, a0)
             okc = g0 is not None and g0.norm(16) == want0.norm(16) and same(a1, BV.sym(16, 'cs_syscall'))
         w.ob('Star::write: accepting path programs SYSRET base = SS_sysret - 8 and SYSCALL base = CS_syscall, once', okc,
              'write_raw calls %r' % ([c[2] for c in calls],), S + 'write')
